@@ -134,6 +134,7 @@ func runC13(b *Batch) {
 				}
 			}()
 			c13Case(b, i)
+			collectGarbage(i)
 		}()
 	}
 }
